@@ -747,7 +747,7 @@ func callBuiltin(caller *frame, fn *ssa.Builtin, args []value) value {
 			// in-place write into spare capacity: journal the overwritten region
 			region := dst[len(dst) : len(dst)+len(extra)]
 			for i := range region {
-				m.journal = append(m.journal, undoRec{addr: &region[i], old: region[i]})
+				m.jlog(undoRec{addr: &region[i], old: region[i]})
 			}
 		}
 		for _, e := range extra {
@@ -778,7 +778,7 @@ func callBuiltin(caller *frame, fn *ssa.Builtin, args []value) value {
 			tmp[i] = copyVal(s[i])
 		}
 		for i := 0; i < n; i++ {
-			m.journal = append(m.journal, undoRec{addr: &dst[i], old: dst[i]})
+			m.jlog(undoRec{addr: &dst[i], old: dst[i]})
 			dst[i] = tmp[i]
 		}
 		return n
@@ -802,7 +802,7 @@ func callBuiltin(caller *frame, fn *ssa.Builtin, args []value) value {
 				elemT = sl.Elem()
 			}
 			for i := range x {
-				m.journal = append(m.journal, undoRec{addr: &x[i], old: x[i]})
+				m.jlog(undoRec{addr: &x[i], old: x[i]})
 				x[i] = zero(elemT)
 			}
 		}
